@@ -63,12 +63,16 @@ Hist genHistory(vf::Ctx & c, int W, const Precision & pr, bool exactSamples, boo
       if (len % W != 0) {resetOffPhase = true;}
     }
   }
-  size_t pattern = c.s.pick("pattern", {1, 2, 3, 2, 2});  // constant, ramp, noisy, alternating, large mean + small spread
+  // constant, ramp, noisy, alternating, large mean + small spread, magnitude swing (large values, then small ones)
+  size_t pattern = c.s.pick("pattern", {1, 2, 3, 2, 2, 3});
   double scaleMax = 1e8 * pr.p;
   double scale = c.s.rlog("scale", std::min(10.0 * pr.p, scaleMax), scaleMax);
   uint64_t seed = c.s.seed("sample_seed");
   vf::Rng rng(seed);
   double base = rng.uniform(-scale, scale);
+  vf::Rng rng2(seed ^ 0x9e3779b97f4a7c15ULL);   // separate stream: the main stream must stay what older tapes produced
+  const int swingBlock = W * (1 + static_cast<int>(rng2.below(3))) + static_cast<int>(rng2.below(3));
+  if (pattern == 5) {c.label("magnitude-swing");}
   for (int k = 0; k < total; ++k) {
     double v = 0;
     switch (pattern) {
@@ -76,7 +80,14 @@ Hist genHistory(vf::Ctx & c, int W, const Precision & pr, bool exactSamples, boo
       case 1: v = -scale + 2 * scale * (static_cast<double>(k % 97) / 97.0); break;
       case 2: v = rng.uniform(-scale, scale); break;
       case 3: v = ((k & 1) ? -1.0 : 1.0) * rng.uniform(0.5 * scale, scale); break;
-      default: v = 0.999 * scale + rng.uniform(-10, 10) * pr.p; break;
+      case 4: v = 0.999 * scale + rng.uniform(-10, 10) * pr.p; break;
+      default: {
+          // blocks of 1..3 windows alternating between the top of the magnitude range and a few precisions: what
+          // is left in the running sums after the large values have left the window must not pollute the small ones
+          int block = k / std::max(1, swingBlock);
+          v = (block % 2 == 0) ? ((rng.u() < 0.5 ? -1.0 : 1.0) * scaleMax * rng.uniform(0.6, 1.0)) : rng.uniform(-20, 20) * pr.p;
+          break;
+        }
     }
     if (exactSamples) {v = std::round(v / pr.p) * pr.p;}  // exact multiple of a dyadic precision
     if (exactSamples && fractional) {
